@@ -8,6 +8,8 @@ mod pen;
 mod tabs;
 mod terminal;
 pub mod util;
+#[cfg(feature = "verif")]
+pub mod verif;
 mod vt;
 pub use cell::Cell;
 pub use color::Color;
